@@ -445,9 +445,19 @@ impl<'a> Model<'a> {
             | Cell::BooleanCell { .. }
             | Cell::NumberCell { .. }
             | Cell::ErrorCell { .. }
-            | Cell::SharedString { .. }
-            | Cell::CellFormula { .. } => {
-                // This is a regular cell, we can just move it.
+            | Cell::SharedString { .. } => {
+                // A cell without a formula is moved as it is. Re-entering its
+                // displayed text would re-interpret it: a quote-prefixed '123
+                // would become a number, a localized boolean a string, and a
+                // number would be cut to its displayed digits.
+                let cell = source_cell.clone();
+                let worksheet = self.workbook.worksheet_mut(sheet)?;
+                worksheet.update_cell(target_row, target_column, cell)?;
+                worksheet.remove_cell(source_row, source_column)?;
+                return Ok(());
+            }
+            Cell::CellFormula { .. } => {
+                // This is a regular formula cell, it is re-entered at the target.
             }
             Cell::SpillCell { .. } => {
                 // This the spill of an array formula. Because dynamic arrays spills have been deleted
